@@ -599,6 +599,13 @@ struct Gen
     {
         Dir d = parse_dir(fmt, star);
         if (!d.ok || tolower(d.conv) != 'g' || !std::isfinite(x) || x == 0) return false;
+        // also the near-tie variant: the argument is within the ulp allowance below the
+        // tie, so that print_f's own rounding error makes it carry although glibc does not
+        double up = fabs(x) * (1.0 + ldexp((double)allow_ulps(d, x), -51));
+        return carry1(d, fabs(x)) || (std::isfinite(up) && carry1(d, up));
+    }
+    static bool carry1(const Dir &d, double x)
+    {
         long P = d.has_prec ? (d.prec == 0 ? 1 : d.prec) : 6;
         if (P > 400) return false;
         char b[512];
